@@ -113,6 +113,32 @@ def _mutation_sites(ctx, funcs):
         own = ctx.effects.self_like(f) | ({"tree"} if "tree" in f.params or
                                           "tree" in ctx.r.local_assignments(f) else set())
         aliases = C.info_aliases(f)
+        # local names bound to a *value* held in a container attribute of the tree:
+        # v = X.attr[k] / X.attr.setdefault(k, ..) / X.attr.get(k) / for .. in X.attr.items()
+        valias = {}
+        for n in walk_local(f.node):
+            if isinstance(n, ast.Assign) and len(n.targets) == 1 and isinstance(n.targets[0], ast.Name):
+                v = n.value
+                base = None
+                if isinstance(v, ast.Subscript):
+                    base = v.value
+                elif isinstance(v, ast.Call) and isinstance(v.func, ast.Attribute) and \
+                        v.func.attr in ("setdefault", "get"):
+                    base = v.func.value
+                if isinstance(base, ast.Attribute) and isinstance(base.value, ast.Name) and \
+                        base.value.id in own and base.attr != "info":
+                    valias[n.targets[0].id] = base.attr
+            elif isinstance(n, (ast.For, ast.comprehension)):
+                it = n.iter
+                if isinstance(it, ast.Call) and isinstance(it.func, ast.Attribute) and \
+                        it.func.attr in ("items", "values") and isinstance(it.func.value, ast.Attribute) \
+                        and isinstance(it.func.value.value, ast.Name) and it.func.value.value.id in own \
+                        and it.func.value.attr != "info":
+                    t = n.target
+                    if it.func.attr == "items" and isinstance(t, ast.Tuple) and len(t.elts) == 2:
+                        t = t.elts[1]
+                    if isinstance(t, ast.Name):
+                        valias[t.id] = it.func.value.attr
         for n in walk_local(f.node):
             tgt = None
             if isinstance(n, (ast.Assign, ast.AugAssign)):
@@ -142,6 +168,12 @@ def _mutation_sites(ctx, funcs):
                 continue
             if e.id in aliases:
                 out.setdefault("info", []).append((f, n, True))
+                continue
+            if e.id in valias and e.id not in own:
+                # mutation through a local alias of a contained value
+                is_mut = isinstance(n, ast.Call) or any(isinstance(c, ast.Subscript) for c in chain)
+                if is_mut:
+                    out.setdefault(valias[e.id], []).append((f, n, True))
                 continue
             if e.id not in own:
                 continue
